@@ -8,6 +8,15 @@ ids = [p["id"] for p in props]
 LANE_TECH = 'TLA+ (DQState.tla + Lane.tla, one action per atomic access) model-checked with TLC; bound to the code by (1) exhaustive function-level conformance of the real inline dq_state functions against the DQState operators, (2) word-level trace validation of every recorded dq_state access of hooked real executions, (3) the property evaluated on the recorded API order'
 LANE_NOTE = "Bounds: TLC explores 2 clients x 2 pool workers with 3-4 items per configuration (thorough: 4-item programs, ~1e6 states each); the root queue is a fair bag; real executions are seeded samples of schedules (perturbation injected inside the library's atomicity windows), not all of them; function-level conformance is exhaustive over the abstract dq_state domain for widths 1-3."
 CHECKS = {
+ "C13": dict(technique="TLA+ spec (Data.tla) transcribing src/data.c function by function + reference meaning Bytes(o), model-checked with TLC (invariants + refuted spec mutants); TLC emits every explored behaviour (and -simulate deep trees) with the expected projection after each step; harness/drv_data.c replays them on the real dispatch_data API comparing after every step (result identity, sizes, internal record lists, bytes via apply/map, applier callbacks, copy_region at every location, reference counts, destructor counts); thorough: same replay on the ASan+UBSan+LSan build",
+   text="TLC checks, in every state of the client state machine, the concat / clamped-slice / size / map / apply-tiling / copy_region laws on the denoted byte strings, record-in-range bookkeeping, the reference ledger and exactly-once-after-last-release destructors. Quick covers every tree of up to 3 operations over 2 leaves with all offsets/lengths 0..size+1 and SIZE_MAX, all release orders for up to 2 operations, a 2-symbol alphabet and all destructor kinds; thorough adds up to 4 operations, 3 leaves, leaf length 3, flatten SPI interleavings and 20,000 simulated deep trees. Every explored behaviour is replayed on the real library (quick about 2e5 behaviours).",
+   note="Bounds as listed in spec/cfg/Data_*.cfg. 'Never reads outside' is decided only as record/offset/refcount bookkeeping (model + identical record lists and pointers in the real objects); actual addresses are observed by the ASan/UBSan/LSan replay in the thorough tier, not decided. Single client thread.",
+   design_ref="7/C13, 8"),
+ "C20": dict(technique="TLC model checking of a TLA+ transcription of src/transform.c against reference codecs (RFC 4648, well-formed UTF-8/UTF-16), with spec-generated vectors replayed on the real code and the spec's laws evaluated as oracles on seeded random inputs",
+   text="Transform.tla has three layers: the reference meaning, an implementation-shaped transcription of the per-region C loops with their carried state and read-ahead (every read index range-checked by a ghost flag), and the pinned tree's seven defects as named switchable deviations (all repaired by fix: commits; TLC shows each violating and none with the repairs). TLC checks encoder = RFC 4648, Dec(split(Enc(x))) = x, UTF round trip modulo leading BOMs, fragmentation independence, 'NULL or the inverse accepts' and no out-of-range read over strings up to 5-6 bytes and every split into <= 3 regions; every explored case is replayed on the real dispatch_data_create_with_transform with exactly that fragmentation (about 4.7e5 vectors in quick); the laws are also evaluated on seeded random inputs up to 3 KB.",
+   note="Exhaustive over branch-covering token alphabets within the stated bounds; longer inputs only by the sampled law oracle. Memory safety is decided as index discipline in the spec and observed with ASan/UBSan on the code in the thorough tier. Host assumed little-endian.",
+   design_ref="7/C20, 8, 9"),
+
  "C07": dict(technique="TLA+ spec (Group.tla) model-checked with TLC + trace validation of hooked real executions (random histories plus a steered reproduction of finding F2) against the same actions + API oracles",
    text="TLC explores every interleaving of 3 threads running bounded client programs (enter, leave, group_async, notify; NOW, timed and untimed waits; >= 2 generations; up to 2 notifiers) of a one-action-per-atomic transcription of dispatch_group (32-bit enter, 64-bit leave with carry into the generation, the CAS loop on the local old state, the notify MPSC list and its snapshot in _dispatch_group_wake, futex compare-and-sleep with spurious wakes and timeouts) and checks in every state: wait returns 0 only if the count was zero during the call, non-zero only after the timeout step, each notification submitted exactly once, not early except in the class of known finding F2, nothing left behind at a quiescent zero, reusability; liveness under fairness on the small programs; 5 spec mutants refuted. The property as stated (NotifyNotEarly) yields exactly the F2 counterexample class, which is also steered on the real library and reported as KNOWN-FINDING. Every recorded execution of the real library (dg_* atomics, notify-list links, futex probes, API events in one total order) must be a behaviour of the spec with all invariants evaluated in every state.",
    note="Bounds as listed, at most 1 spurious wake; liveness on the larger programs reduced to the safety invariants NothingLeft/StuckFree; real time not modelled (driver checks elapsed >= timeout); futex semantics assumed; real executions are samples of schedules; F2 is a known finding (not small/safe to repair). An observation not judged: a notifier registered behind a first pusher that has not yet published HAS_NOTIFS can miss one zero transition and is delivered at the next.",
